@@ -336,6 +336,9 @@ package join
   at call(dyncall).after assume [the-selection-function-returns-a-filter] (not (= $result vnil))
   at call(dyncall).after set lastFilter := $result
   at call(Refilter) assert [refilters-its-own-clone-with-that-filter] (and (= $recv {dst}) (= $0 lastFilter) listOK)
+  ghost refiltered : Bool := false
+  at call(Refilter) set refiltered := true
+  exit [refilters-unless-the-source-cache-could-not-be-listed] (or refiltered (not listOK))
 @*/
 /*@ func join.ServicePodsWith$2
   props C09
@@ -346,6 +349,9 @@ package join
   at call(dyncall).after assume [the-selection-function-returns-a-filter] (not (= $result vnil))
   at call(dyncall).after set lastFilter := $result
   at call(Refilter) assert [refilters-its-own-clone-with-that-filter] (and (= $recv {dst}) (= $0 lastFilter))
+  ghost refiltered : Bool := false
+  at call(Refilter) set refiltered := true
+  exit [always-refilters-so-the-join-becomes-ready-even-for-an-empty-source] refiltered
 @*/
 /*@ func join.ServicePodsWith$3
   props C09 C11 C12
@@ -403,6 +409,9 @@ package join
   at call(dyncall).after assume [the-selection-function-returns-a-filter] (not (= $result vnil))
   at call(dyncall).after set lastFilter := $result
   at call(Refilter) assert [refilters-its-own-clone-with-that-filter] (and (= $recv {dst}) (= $0 lastFilter) listOK)
+  ghost refiltered : Bool := false
+  at call(Refilter) set refiltered := true
+  exit [refilters-unless-the-source-cache-could-not-be-listed] (or refiltered (not listOK))
 @*/
 /*@ func join.RCPodsWith$2
   props C09
@@ -413,6 +422,9 @@ package join
   at call(dyncall).after assume [the-selection-function-returns-a-filter] (not (= $result vnil))
   at call(dyncall).after set lastFilter := $result
   at call(Refilter) assert [refilters-its-own-clone-with-that-filter] (and (= $recv {dst}) (= $0 lastFilter))
+  ghost refiltered : Bool := false
+  at call(Refilter) set refiltered := true
+  exit [always-refilters-so-the-join-becomes-ready-even-for-an-empty-source] refiltered
 @*/
 /*@ func join.RCPodsWith$3
   props C09 C11 C12
@@ -470,6 +482,9 @@ package join
   at call(dyncall).after assume [the-selection-function-returns-a-filter] (not (= $result vnil))
   at call(dyncall).after set lastFilter := $result
   at call(Refilter) assert [refilters-its-own-clone-with-that-filter] (and (= $recv {dst}) (= $0 lastFilter) listOK)
+  ghost refiltered : Bool := false
+  at call(Refilter) set refiltered := true
+  exit [refilters-unless-the-source-cache-could-not-be-listed] (or refiltered (not listOK))
 @*/
 /*@ func join.RSPodsWith$2
   props C09
@@ -480,6 +495,9 @@ package join
   at call(dyncall).after assume [the-selection-function-returns-a-filter] (not (= $result vnil))
   at call(dyncall).after set lastFilter := $result
   at call(Refilter) assert [refilters-its-own-clone-with-that-filter] (and (= $recv {dst}) (= $0 lastFilter))
+  ghost refiltered : Bool := false
+  at call(Refilter) set refiltered := true
+  exit [always-refilters-so-the-join-becomes-ready-even-for-an-empty-source] refiltered
 @*/
 /*@ func join.RSPodsWith$3
   props C09 C11 C12
@@ -537,6 +555,9 @@ package join
   at call(dyncall).after assume [the-selection-function-returns-a-filter] (not (= $result vnil))
   at call(dyncall).after set lastFilter := $result
   at call(Refilter) assert [refilters-its-own-clone-with-that-filter] (and (= $recv {dst}) (= $0 lastFilter) listOK)
+  ghost refiltered : Bool := false
+  at call(Refilter) set refiltered := true
+  exit [refilters-unless-the-source-cache-could-not-be-listed] (or refiltered (not listOK))
 @*/
 /*@ func join.DeploymentPodsWith$2
   props C09
@@ -547,6 +568,9 @@ package join
   at call(dyncall).after assume [the-selection-function-returns-a-filter] (not (= $result vnil))
   at call(dyncall).after set lastFilter := $result
   at call(Refilter) assert [refilters-its-own-clone-with-that-filter] (and (= $recv {dst}) (= $0 lastFilter))
+  ghost refiltered : Bool := false
+  at call(Refilter) set refiltered := true
+  exit [always-refilters-so-the-join-becomes-ready-even-for-an-empty-source] refiltered
 @*/
 /*@ func join.DeploymentPodsWith$3
   props C09 C11 C12
@@ -604,6 +628,9 @@ package join
   at call(dyncall).after assume [the-selection-function-returns-a-filter] (not (= $result vnil))
   at call(dyncall).after set lastFilter := $result
   at call(Refilter) assert [refilters-its-own-clone-with-that-filter] (and (= $recv {dst}) (= $0 lastFilter) listOK)
+  ghost refiltered : Bool := false
+  at call(Refilter) set refiltered := true
+  exit [refilters-unless-the-source-cache-could-not-be-listed] (or refiltered (not listOK))
 @*/
 /*@ func join.DaemonSetPodsWith$2
   props C09
@@ -614,6 +641,9 @@ package join
   at call(dyncall).after assume [the-selection-function-returns-a-filter] (not (= $result vnil))
   at call(dyncall).after set lastFilter := $result
   at call(Refilter) assert [refilters-its-own-clone-with-that-filter] (and (= $recv {dst}) (= $0 lastFilter))
+  ghost refiltered : Bool := false
+  at call(Refilter) set refiltered := true
+  exit [always-refilters-so-the-join-becomes-ready-even-for-an-empty-source] refiltered
 @*/
 /*@ func join.DaemonSetPodsWith$3
   props C09 C11 C12
@@ -671,6 +701,9 @@ package join
   at call(dyncall).after assume [the-selection-function-returns-a-filter] (not (= $result vnil))
   at call(dyncall).after set lastFilter := $result
   at call(Refilter) assert [refilters-its-own-clone-with-that-filter] (and (= $recv {dst}) (= $0 lastFilter) listOK)
+  ghost refiltered : Bool := false
+  at call(Refilter) set refiltered := true
+  exit [refilters-unless-the-source-cache-could-not-be-listed] (or refiltered (not listOK))
 @*/
 /*@ func join.StatefulSetPodsWith$2
   props C09
@@ -681,6 +714,9 @@ package join
   at call(dyncall).after assume [the-selection-function-returns-a-filter] (not (= $result vnil))
   at call(dyncall).after set lastFilter := $result
   at call(Refilter) assert [refilters-its-own-clone-with-that-filter] (and (= $recv {dst}) (= $0 lastFilter))
+  ghost refiltered : Bool := false
+  at call(Refilter) set refiltered := true
+  exit [always-refilters-so-the-join-becomes-ready-even-for-an-empty-source] refiltered
 @*/
 /*@ func join.StatefulSetPodsWith$3
   props C09 C11 C12
@@ -738,6 +774,9 @@ package join
   at call(dyncall).after assume [the-selection-function-returns-a-filter] (not (= $result vnil))
   at call(dyncall).after set lastFilter := $result
   at call(Refilter) assert [refilters-its-own-clone-with-that-filter] (and (= $recv {dst}) (= $0 lastFilter) listOK)
+  ghost refiltered : Bool := false
+  at call(Refilter) set refiltered := true
+  exit [refilters-unless-the-source-cache-could-not-be-listed] (or refiltered (not listOK))
 @*/
 /*@ func join.JobPodsWith$2
   props C09
@@ -748,6 +787,9 @@ package join
   at call(dyncall).after assume [the-selection-function-returns-a-filter] (not (= $result vnil))
   at call(dyncall).after set lastFilter := $result
   at call(Refilter) assert [refilters-its-own-clone-with-that-filter] (and (= $recv {dst}) (= $0 lastFilter))
+  ghost refiltered : Bool := false
+  at call(Refilter) set refiltered := true
+  exit [always-refilters-so-the-join-becomes-ready-even-for-an-empty-source] refiltered
 @*/
 /*@ func join.JobPodsWith$3
   props C09 C11 C12
@@ -805,6 +847,9 @@ package join
   at call(dyncall).after assume [the-selection-function-returns-a-filter] (not (= $result vnil))
   at call(dyncall).after set lastFilter := $result
   at call(Refilter) assert [refilters-its-own-clone-with-that-filter] (and (= $recv {dst}) (= $0 lastFilter) listOK)
+  ghost refiltered : Bool := false
+  at call(Refilter) set refiltered := true
+  exit [refilters-unless-the-source-cache-could-not-be-listed] (or refiltered (not listOK))
 @*/
 /*@ func join.IngressServicesWith$2
   props C09
@@ -815,6 +860,9 @@ package join
   at call(dyncall).after assume [the-selection-function-returns-a-filter] (not (= $result vnil))
   at call(dyncall).after set lastFilter := $result
   at call(Refilter) assert [refilters-its-own-clone-with-that-filter] (and (= $recv {dst}) (= $0 lastFilter))
+  ghost refiltered : Bool := false
+  at call(Refilter) set refiltered := true
+  exit [always-refilters-so-the-join-becomes-ready-even-for-an-empty-source] refiltered
 @*/
 /*@ func join.IngressServicesWith$3
   props C09 C11 C12
